@@ -447,8 +447,8 @@ fn gen_scan(r: &mut Rng) -> Vec<u8> {
             let k = SCAN_KEYS[1 + r.below(14)];
             let v = match k {
                 "ALL_DEPENDS" => (0..r.below(4)).map(|_| if r.below(9) == 0 { r.pick(&deps) } else { deps[r.below(3)] }).collect::<Vec<_>>().join(["  ", " ", "\t"][r.below(3)]),
-                "PKG_LOCATION" => ["cat/pkg", "../../cat/pkg", "x/y", "x/y", "bad", "a/b/c"][r.below(6)].to_string(),
-                "SCAN_DEPENDS" | "MULTI_VERSION" => (0..r.below(4)).map(|_| ["/a/b.mk", "PHP=56", "X=1=2", "../mk"][r.below(4)]).collect::<Vec<_>>().join(" "),
+                "PKG_LOCATION" => ["cat/pkg", "../../cat/pkg", "x/y", "x/y", "bad", "a/b/c", "", "  ", "/abs/p", "../../x", ".", "cat/pkg/", "x//y"][r.below(13)].to_string(),
+                "SCAN_DEPENDS" | "MULTI_VERSION" => (0..r.below(4)).map(|_| ["/a/b.mk", "PHP=56", "X=1=2", "../mk", "a,b"][r.below(5)]).collect::<Vec<_>>().join([" ", " ", "  ", "\t", " \t "][r.below(5)]),
                 _ => r.pick(&vals).to_string(),
             };
             t.push_str(&format!("{}{}{}={}{}\n", ind(r), k, ["", "", " "][r.below(3)], v, ind(r)));
@@ -479,7 +479,9 @@ pub fn check_scan(text: &[u8], fail_at: Option<usize>) -> bool {
 }
 pub fn search_c16(r: &mut Rng, iters: usize) -> bool {
     for fixed in ["PKGNAME=a-1\nCATEGORIES=x\n  PKGNAME=b-2\nMAINTAINER=m\n", "PKGNAME=a-1\n\n\nPKGNAME=b-2\n", "PKGNAME=a-1\nPKGNAME=b-1\n", "", "\n\n",
-                  "PKGNAME=a-1\nCATEGORIES=x\nCATEGORIES=y\n", "CATEGORIES=y\nPKGNAME=a-1\n", "PKGNAME=a-1\nALL_DEPENDS=bad\n", "PKGNAME=a-1\nPKG_LOCATION=bad\n"] {
+                  "PKGNAME=a-1\nCATEGORIES=x\nCATEGORIES=y\n", "CATEGORIES=y\nPKGNAME=a-1\n", "PKGNAME=a-1\nALL_DEPENDS=bad\n", "PKGNAME=a-1\nPKG_LOCATION=bad\n",
+                  "PKGNAME=a-1\nPKG_LOCATION=\n", "PKGNAME=a-1\nPKG_LOCATION=cat/pkg\nPKG_LOCATION=\n", "PKGNAME=a-1\nSCAN_DEPENDS=\nMULTI_VERSION=\nALL_DEPENDS=\n",
+                  "PKGNAME=a-1\nPKG_SKIP_REASON=\n", "PKGNAME=a-1\nPKG_SKIP_REASON=s\n", "PKGNAME=a-1\nMULTI_VERSION=A=1\tB=2  C=3\n"] {
         if !check_scan(fixed.as_bytes(), None) {
             return false;
         }
